@@ -8,7 +8,7 @@ from .astutil import body_walk, dotted, norm, positional_params, short
 from .schema import Access, ReaderAccesses, WDict, WList, compare, shape_keys, writer_shape
 
 
-def check_pair(ctx, rule: str, name: str, writer_key: str, reader_key: str, reader_root: Optional[str], allow_unread: Optional[Dict[Tuple[str, ...], str]] = None, restrict=None, min_keys: int = 1, allow_unwritten: Optional[Dict[Tuple[str, ...], str]] = None):
+def check_pair(ctx, rule: str, name: str, writer_key: str, reader_key: str, reader_root: Optional[str], allow_unread: Optional[Dict[Tuple[str, ...], str]] = None, restrict=None, min_keys: int = 1, allow_unwritten: Optional[Dict[Tuple[str, ...], str]] = None, allow_gated: Optional[Dict[Tuple[str, ...], str]] = None):
     """SCHEMA Rules A and B for one writer/reader pair.
 
     reader_root: name of the reader's record parameter, or None for "the json.load result"."""
@@ -25,7 +25,7 @@ def check_pair(ctx, rule: str, name: str, writer_key: str, reader_key: str, read
     if len(keys) < min_keys or not acc:
         ctx.undecided(rule, f"record:{name}", f"extracted {len(keys)} writer keys / {len(acc)} reader accesses: below what was confirmed by hand", w)
         return
-    problems, checked = compare(shape, acc, allow_unread or {}, allow_unwritten or {})
+    problems, checked = compare(shape, acc, allow_unread or {}, allow_unwritten or {}, allow_gated or {})
     bad_paths = {p[1] for p in problems}
     for kind, path, detail, where in problems:
         ctx.violation(rule, f"record:{name}:{'/'.join(path)}:{kind}", f"{name}: {detail} (writer {w.qualname}, reader {r.qualname})", where or w.where)
